@@ -28,7 +28,7 @@ def obligations(tier):
     for ci in range(4):
         obs.append(dict(name=f"all_props[{['SMSimfile','SSCSimfile','SSCChart','SMChart'][ci]}]", func="all_props", pre=f"ci == {ci}", timeout=T,
                         bounds="every known-property attribute of the class (found by introspection, symbolic index): attribute <-> upper-case key, other keys untouched"))
-    for op in range(14):
+    for op in range(17):
         obs.append(dict(name=f"smchart_step[op{op}]", func="smchart_step", pre=f"op == {op}", timeout=T, bounds="field index symbolic, value <=2, one symbolic field"))
     return obs
 
